@@ -10,7 +10,7 @@ import ast
 import itertools
 
 from ..core import Rule, AnalysisError, norm
-from .. import pyfront, dtable, pyutil, cfold
+from .. import pyfront, dtable, pyutil, cfold, pybool
 from . import c02
 
 LD = "python/digital_rf/list_drf.py"
@@ -441,27 +441,15 @@ def r4_robust_listing(repo=None):
         if "<locals>" in q:
             continue
         params = {a.arg for a in f.args.args}
-        # the parent of a path given by the caller (root, name = os.path.split(<parameter>)) is not a sub-directory found by a scan
-        parents = set()
-        for n in pyfront.walk_no_nested(f):
-            if isinstance(n, ast.Assign) and isinstance(n.value, ast.Call) and pyfront.call_name(n.value) in ("os.path.split", "os.path.dirname") \
-                    and n.value.args and isinstance(n.value.args[0], ast.Name) and n.value.args[0].id in params:
-                t = n.targets[0]
-                if isinstance(t, ast.Tuple) and isinstance(t.elts[0], ast.Name):
-                    parents.add(t.elts[0].id)
-                elif isinstance(t, ast.Name):
-                    parents.add(t.id)
         for c in pyfront.walk_no_nested(f):
             if isinstance(c, ast.Call) and pyfront.call_name(c) == "os.listdir":
-                if c.args and isinstance(c.args[0], ast.Name) and c.args[0].id in parents:
-                    continue
                 n_ld += 1
                 site = "%s:%s %s `%s`" % (m.rel, c.lineno, q, norm(ast.unparse(c)))
                 if _in_oserror_try(m, c):
                     r.ok(site, "inside try/except OSError (a sub-directory that vanished is skipped)")
                 else:
-                    r.violation(m.rel, q, norm(ast.unparse(c)), "listing a timestamped sub-directory is not guarded: a sub-directory removed "
-                                "meanwhile (ringbuffer, mirror) makes the whole listing fail", line=c.lineno)
+                    r.violation(m.rel, q, norm(ast.unparse(c)), "this directory listing is not guarded: a (sub-)directory removed "
+                                "meanwhile (ringbuffer, mirror) makes the whole listing fail instead of yielding nothing for it", line=c.lineno)
     if n_ld < 1:
         raise AnalysisError("list_drf: expected os.listdir sites for sub-directories (2 on the reference tree), found %d" % n_ld)
     # constant subscripts of lists produced by _decorate_drf_files are guarded by a non-emptiness test
@@ -806,10 +794,299 @@ def r6_reverse_changes_only_the_order(repo=None):
     return r
 
 
+def _slice_fn(repo):
+    m = pyfront.mod("list_drf", repo)
+    SL = slice_name(repo)
+    fn = m.fn(SL)
+    params = [a.arg for a in fn.args.args]
+    for need in ("starttime", "endtime", "ffill"):
+        if need not in params:
+            raise AnalysisError("%s: parameter `%s` not found" % (SL, need))
+    parents = {}
+    for n in ast.walk(fn):
+        for ch in ast.iter_child_nodes(n):
+            parents[ch] = n
+    return m, SL, fn, params[0], parents
+
+
+def _bisect_assign(fn, bound):
+    """(index variable, call) for `<var> = bisect.bisect_left/right(<list>, (<bound>,), ...)`"""
+    out = []
+    for n in ast.walk(fn):
+        if isinstance(n, ast.Assign) and len(n.targets) == 1 and isinstance(n.targets[0], ast.Name) and isinstance(n.value, ast.Call) \
+                and (pyfront.call_name(n.value) or "").startswith("bisect.") and len(n.value.args) >= 2:
+            probe = n.value.args[1]
+            if isinstance(probe, ast.Tuple) and len(probe.elts) == 1 and isinstance(probe.elts[0], ast.Name) and probe.elts[0].id == bound:
+                out.append((n.targets[0].id, n))
+            elif any(isinstance(x, ast.Name) and x.id == bound for x in ast.walk(probe)):
+                raise AnalysisError("bisect probe `%s` for %s not recognised (a 1-tuple (%s,) expected)" % (norm(ast.unparse(probe)), bound, bound))
+    return out
+
+
+def r7_window_end_inclusive(repo=None):
+    """The window is [start, end] on the name timestamp, and several files can carry the same timestamp (two name prefixes, an RF and
+    a metadata file of one second in a mixed or legacy channel).  The list holds (time, path) tuples and is probed with the 1-tuple
+    (endtime,), which sorts before every (endtime, path): the bisect gives the first entry with time >= end, so every entry with
+    time == end still has to be stepped over - by a loop.  An `if` steps over one of them (the defect this rule was written for), no
+    step at all makes the end exclusive."""
+    r = Rule("C14.R7", "the end of the window is inclusive for every file that carries the end timestamp")
+    m, SL, fn, L, parents = _slice_fn(repo)
+    bs = _bisect_assign(fn, "endtime")
+    if len(bs) != 1:
+        raise AnalysisError("%s: expected one bisect for the end of the window, found %d" % (SL, len(bs)))
+    ke, asg = bs[0]
+    eq_atom = None
+    steps = []
+    for n in ast.walk(fn):
+        if isinstance(n, (ast.If, ast.While)):
+            for left, op, right in pybool.compare_nodes(n.test):
+                if isinstance(op, ast.Eq) and {norm(ast.unparse(left)), norm(ast.unparse(right))} == {"%s[%s][0]" % (L, ke), "endtime"}:
+                    inc = [x for x in n.body if (isinstance(x, ast.Assign) and isinstance(x.targets[0], ast.Name) and x.targets[0].id == ke
+                                                 and norm(ast.unparse(x.value)) in ("%s + 1" % ke, "1 + %s" % ke))
+                           or (isinstance(x, ast.AugAssign) and isinstance(x.target, ast.Name) and x.target.id == ke
+                               and isinstance(x.op, ast.Add) and pyfront.const(x.value) == 1)]
+                    if inc:
+                        steps.append(n)
+    site = "%s:%s %s" % (m.rel, asg.lineno, SL)
+    if not steps:
+        others = [n for n in ast.walk(fn) if n is not asg and isinstance(n, (ast.Assign, ast.AugAssign)) and any(
+            isinstance(x, ast.Name) and x.id == ke and isinstance(x.ctx, ast.Store) for x in ast.walk(n))
+            and not (isinstance(n, ast.Assign) and isinstance(n.value, ast.Call) and pyfront.call_name(n.value) == "len")
+            and asg.lineno < n.lineno]
+        if others:
+            raise AnalysisError("%s: adjustment of the end index `%s` not recognised" % (SL, norm(ast.unparse(others[0]))[:80]))
+        r.violation(m.rel, SL, "%s = %s" % (ke, norm(ast.unparse(asg.value))),
+                    "the end index is the first entry with time >= endtime and is never advanced over the entries whose time equals "
+                    "endtime: the end of the window is exclusive", line=asg.lineno)
+    for n in steps:
+        if isinstance(n, ast.While):
+            r.ok("%s:%s %s" % (m.rel, n.lineno, SL), "`while %s` steps over every entry carrying the end timestamp" % norm(ast.unparse(n.test))[:80])
+        else:
+            r.violation(m.rel, SL, "if %s: %s += 1" % (norm(ast.unparse(n.test))[:80], ke),
+                        "after bisecting with the probe (endtime,) the index stands before *all* entries whose time equals endtime; an "
+                        "`if` advances over one of them only, so of several files that carry the end timestamp (two name prefixes, RF "
+                        "and metadata file of the same second) only the first is listed", line=n.lineno)
+    r.guard(1)
+    return r
+
+
+def r8_forward_fill_file_always_taken(repo=None):
+    """'... plus - for metadata channels - the latest file before start': the file is owed whether or not another file is named
+    exactly `start` (a file named by `start` need not hold a sample at `start`).  (a) In the bisecting window function the step back
+    `ks - 1` under forward fill must happen for every position of the first entry >= start: its path condition, evaluated over the
+    truth assignments of its atoms with `ffill` true, a start given and room to step back, must be a tautology - a conjunct such as
+    `dec_list[ks][0] > starttime` fails it for an entry exactly at start.  (b) The look-back into earlier sub-directories must be
+    taken when the first file of the earliest selected sub-directory is *at* start as well as after it: the condition is evaluated
+    for the orderings first-file-time == / > start (atoms comparing the two follow the ordering) and whatever makes it true for `>`
+    must make it true for `==`."""
+    import itertools
+    from .. import cbool
+    r = Rule("C14.R8", "the latest metadata file before the start is listed also when a file is named exactly by the start time")
+    m, SL, fn, L, parents = _slice_fn(repo)
+    bs = _bisect_assign(fn, "starttime")
+    if len(bs) != 1:
+        raise AnalysisError("%s: expected one bisect for the start of the window, found %d" % (SL, len(bs)))
+    ks, asg = bs[0]
+    decs = []
+    for n in ast.walk(fn):
+        if isinstance(n, ast.Assign) and len(n.targets) == 1 and isinstance(n.targets[0], ast.Name) and n.targets[0].id == ks and n is not asg:
+            txt = norm(ast.unparse(n.value))
+            if txt in ("max(%s - 1, 0)" % ks, "max(0, %s - 1)" % ks, "%s - 1" % ks):
+                decs.append(n)
+            elif pyfront.const(n.value) != 0:
+                raise AnalysisError("%s: adjustment of the start index `%s` not recognised" % (SL, norm(ast.unparse(n))[:80]))
+        elif isinstance(n, ast.AugAssign) and isinstance(n.target, ast.Name) and n.target.id == ks:
+            if isinstance(n.op, ast.Sub) and pyfront.const(n.value) == 1:
+                decs.append(n)
+            else:
+                raise AnalysisError("%s: adjustment of the start index `%s` not recognised" % (SL, norm(ast.unparse(n))[:80]))
+    if not decs:
+        r.violation(m.rel, SL, "%s = %s" % (ks, norm(ast.unparse(asg.value))), "the start index is never stepped back under forward fill: "
+                    "the latest file before the start is not listed", line=asg.lineno)
+    fs = [pybool.path_condition(d, parents, fn) for d in decs]
+    if fs:
+        f = cbool.disj(fs)
+        names = sorted(cbool.atoms(f))
+        fixed = {}
+        for a in names:
+            if a == "ffill":
+                fixed[a] = True
+            elif a == "starttime is None":
+                fixed[a] = False
+            elif a in ("%s>0" % ks, "%s>=1" % ks):
+                fixed[a] = True
+            elif a in ("0==%s" % ks, "1>%s" % ks, "0>%s" % ks):
+                fixed[a] = False
+        free = [a for a in names if a not in fixed]
+        if len(free) > 12:
+            raise AnalysisError("%s: step-back condition too large" % SL)
+        wit = None
+        for bits in itertools.product((False, True), repeat=len(free)):
+            val = dict(fixed)
+            val.update(zip(free, bits))
+            if not cbool.ev(f, val):
+                wit = {k: v for k, v in val.items() if k in free}
+                break
+        site = "%s:%s %s" % (m.rel, decs[0].lineno, SL)
+        if wit is None:
+            r.ok(site, "under forward fill the start index always steps back to the latest entry before start (condition %s)" % cbool.show(f))
+        else:
+            r.violation(m.rel, SL, "%s stepped back only if %s" % (ks, cbool.show(f)),
+                        "with forward fill requested the step back to the latest entry before start is skipped for %s - after "
+                        "bisect_left the entry at the index has time >= start, so this is the case of a file named exactly by the start "
+                        "time: the latest file before start is then not listed" % ", ".join("%s=%s" % kv for kv in sorted(wit.items())),
+                        line=decs[0].lineno)
+    # (b) the look-back condition
+    x5 = r5_lookback_complete(repo)     # locates the look-back loop (raises if not found)
+    q = kernel_name(repo)
+    DD = decorate_name(repo)
+    view = m.flat(q, keep=(DD, SL), depth=4)
+    kf = view.fn()
+    kpar = {}
+    for n in ast.walk(kf):
+        for ch in ast.iter_child_nodes(n):
+            kpar[ch] = n
+    loops = [lp for lp in ast.walk(kf) if isinstance(lp, ast.For) and any(
+        isinstance(c, ast.Call) and pyfront.call_name(c) == "os.listdir" for c in ast.walk(lp)) and any(
+        isinstance(b, (ast.Break, ast.Return)) for b in ast.walk(lp)) and (
+        (isinstance(lp.iter, ast.Call) and pyfront.call_name(lp.iter) in ("range", "reversed")))]
+    loops = [lp for lp in loops if not any(o is not lp and any(x is lp for x in ast.walk(o)) for o in loops)] or loops
+    guards = []
+    for lp in loops:
+        p = kpar.get(lp)
+        ch = lp
+        while p is not None and not isinstance(p, (ast.FunctionDef,)):
+            if isinstance(p, ast.If) and any(ch is x for x in p.body) and any(
+                    isinstance(x, ast.Name) and x.id == "starttime" for x in ast.walk(p.test)):
+                guards.append(p)
+                break
+            ch = p
+            p = kpar.get(p)
+    if len(guards) != 1:
+        raise AnalysisError("%s: the condition guarding the look-back into earlier sub-directories was not found exactly once (%d)" % (q, len(guards)))
+    g = guards[0]
+    test = g.test
+    sem = {}
+    for left, op, right in pybool.compare_nodes(test):
+        a = pybool.atom_of(left, op, right)
+        if a is None:
+            continue
+        lt, rt = norm(ast.unparse(left)), norm(ast.unparse(right))
+        if "starttime" not in (lt, rt):
+            continue
+        atom, meaning = a
+        # meaning is relative to (left, right); normalise to (other, starttime)
+        if rt == "starttime":
+            sem[atom] = meaning
+        else:
+            sem[atom] = {"gt": "lt", "lt": "gt", "eq": "eq"}[meaning]
+    f = pybool.truth(test)
+    if not sem:
+        raise AnalysisError("%s: the look-back condition does not compare a file time with starttime: `%s`" % (q, norm(ast.unparse(test))[:100]))
+    names = sorted(cbool.atoms(f))
+    free = [a for a in names if a not in sem]
+    if len(free) > 12:
+        raise AnalysisError("%s: look-back condition too large" % q)
+    wit = None
+    for bits in itertools.product((False, True), repeat=len(free)):
+        val = dict(zip(free, bits))
+        vg = dict(val)
+        ve = dict(val)
+        for a, meaning in sem.items():
+            vg[a] = (meaning == "gt")
+            ve[a] = (meaning == "eq")
+        if cbool.ev(f, vg) and not cbool.ev(f, ve):
+            wit = val
+            break
+    site = "%s:%s %s" % (m.rel, g.lineno, q)
+    if wit is None:
+        r.ok(site, "the look-back is taken for a first file at the start time whenever it is taken for one after it (%s)" % cbool.show(f)[:160])
+    else:
+        r.violation(m.rel, q, "look-back only if %s" % cbool.show(f)[:160],
+                    "the earlier sub-directories are searched when the first file of the earliest selected sub-directory is after the "
+                    "start, but not when it is named exactly by the start time (%s): the latest file before start lies in an earlier "
+                    "sub-directory and is not listed" % ", ".join("%s=%d" % kv for kv in sorted(wit.items())), line=g.lineno)
+    r.guard(2)
+    return r
+
+
+def r9_grammar_names_that_are_not_times(repo=None):
+    """The sub-directory and file grammars constrain digits, not values: `2017-02-30T00-00-00`, month 13, second 60 or a file whose
+    seconds do not fit a timedelta match them.  Such a stray name (an empty directory is enough) must be skipped like any other
+    non-matching name, not abort the listing of the whole tree.  Every `datetime.datetime(...)` / `datetime.timedelta(...)` built
+    from regex groups in the functions the listing runs (the per-channel generator with its helpers inlined, the decorating function)
+    must therefore sit in a `try` whose handlers catch ValueError (calendar fields out of range) resp. OverflowError (number too large)."""
+    r = Rule("C14.R9", "a name that fits the grammar but is not a time is skipped, it does not make the listing fail")
+    m = pyfront.mod("list_drf", repo)
+    q = kernel_name(repo)
+    DD = decorate_name(repo)
+    SL = slice_name(repo)
+    views = [(q, m.flat(q, keep=(DD, SL), depth=4)), (DD, m.flat(DD, depth=4))]
+    need = {"datetime.datetime": ("ValueError",), "datetime.timedelta": ("OverflowError", "ArithmeticError")}
+    seen = set()
+    n = 0
+    for name, view in views:
+        fn = view.fn()
+        par = {}
+        for x in ast.walk(fn):
+            for ch in ast.iter_child_nodes(x):
+                par[ch] = x
+        for c in ast.walk(fn):
+            if not (isinstance(c, ast.Call) and pyfront.call_name(c) in need):
+                continue
+            from_groups = any(isinstance(x, ast.Call) and isinstance(x.func, ast.Attribute) and x.func.attr == "group" for x in ast.walk(c))
+            if not from_groups:
+                # arguments may be locals set from groups just before (frac = int(m.group("frac")))
+                names = {x.id for x in ast.walk(c) if isinstance(x, ast.Name)}
+                from_groups = any(isinstance(a, ast.Assign) and isinstance(a.targets[0], ast.Name) and a.targets[0].id in names and any(
+                    isinstance(x, ast.Call) and isinstance(x.func, ast.Attribute) and x.func.attr == "group" for x in ast.walk(a.value))
+                    for a in ast.walk(fn))
+            if not from_groups:
+                continue
+            key = (getattr(c, "lineno", 0), getattr(c, "col_offset", 0), pyfront.call_name(c))
+            if key in seen:
+                continue
+            seen.add(key)
+            n += 1
+            wanted = need[pyfront.call_name(c)]
+            caught = False
+            ch = c
+            p = par.get(c)
+            while p is not None and not isinstance(p, ast.FunctionDef):
+                if isinstance(p, ast.Try) and any(ch is x for x in p.body):
+                    for h in p.handlers:
+                        types = []
+                        if h.type is None:
+                            types = ["BaseException"]
+                        elif isinstance(h.type, ast.Tuple):
+                            types = [pyfront.dotted(e) for e in h.type.elts]
+                        else:
+                            types = [pyfront.dotted(h.type)]
+                        if any(t in wanted or t in ("Exception", "BaseException") for t in types) and not any(
+                                isinstance(x, ast.Raise) for x in ast.walk(h)):
+                            caught = True
+                ch = p
+                p = par.get(p)
+            site = "%s:%s %s `%s`" % (m.rel, c.lineno, name, norm(ast.unparse(c))[:60])
+            if caught:
+                r.ok(site, "built from regex groups inside try/except %s" % wanted[0])
+            else:
+                r.violation(m.rel, name, norm(ast.unparse(c))[:80],
+                            "built from the digits of a name that matched the grammar, outside any handler for %s: a stray entry such as "
+                            "%s raises and aborts the listing of the whole tree (drf ls / cp / mv, mirror and ringbuffer start-up)" % (
+                                wanted[0], "`2017-02-30T00-00-00/` or month 13" if wanted[0] == "ValueError" else "`rf@99999999999999999.000.h5`"),
+                            line=c.lineno)
+    if n < 2:
+        raise AnalysisError("list_drf: expected the sub-directory date and the file time to be built from regex groups (2 sites), found %d" % n)
+    r.guard(2)
+    return r
+
+
 def rules(repo=None):
     return [lambda: r1_grammar(repo), lambda: r2_kind_tables(repo), lambda: r3_sorted_before_sliced(repo),
             lambda: r4_robust_listing(repo), lambda: r5_lookback_complete(repo),
-            lambda: r6_reverse_changes_only_the_order(repo)]
+            lambda: r6_reverse_changes_only_the_order(repo), lambda: r7_window_end_inclusive(repo),
+            lambda: r8_forward_fill_file_always_taken(repo), lambda: r9_grammar_names_that_are_not_times(repo)]
 
 
 EXPLANATION = (
